@@ -98,11 +98,13 @@ struct Model<K, V> {
     expirations: u64,
     rejected_zero: u64,
     rejected_large: u64,
+    /// selftest 5 only: a deliberately wrong model in which contains_key refreshes recency
+    touch_on_contains: bool,
 }
 
 impl<K: CacheKey, V: HVal> Model<K, V> {
     fn new(limit: usize, ttl: Option<u64>) -> Self {
-        Model { lru: vec![], limit, ttl, now: 0, evictions: 0, expirations: 0, rejected_zero: 0, rejected_large: 0 }
+        Model { lru: vec![], limit, ttl, now: 0, evictions: 0, expirations: 0, rejected_zero: 0, rejected_large: 0, touch_on_contains: false }
     }
     fn used(&self) -> usize {
         self.lru.iter().map(|e| e.k.size() + e.v.size()).sum()
@@ -137,7 +139,13 @@ impl<K: CacheKey, V: HVal> Model<K, V> {
                 self.expirations += 1;
                 false
             }
-            Some(_) => true,
+            Some(i) => {
+                if self.touch_on_contains {
+                    let e = self.lru.remove(i);
+                    self.lru.push(e);
+                }
+                true
+            }
         }
     }
     fn take_old(&mut self, k: &K) -> Ret<V> {
@@ -465,7 +473,7 @@ fn finish_case<K: CacheKey, V: HVal>(kind: &'static str, rig: Rig<K, V>, setup: 
 }
 
 fn run_generic(rng: &mut Rng, max_ops: usize, selftest: u64) -> CaseOut {
-    let limit = *rng.pick(&[0usize, 1, 10, 25, 25, 50, 50, 100, 1000]);
+    let limit = *rng.pick(&[0usize, 1, 10, 25, 50, 50, 100, 100, 100, 1000]);
     let ttl = if rng.chance(2, 5) { Some(*rng.pick(&TTLS)) } else { None };
     let tables = [TableReference::bare("t0"), TableReference::bare("t1")];
     let n_keys = 2 + rng.usize(5);
@@ -480,6 +488,7 @@ fn run_generic(rng: &mut Rng, max_ops: usize, selftest: u64) -> CaseOut {
     let n_ops = 1 + rng.usize(max_ops);
     if selftest != 0 {
         rig.corrupt_at = Some((n_ops / 2, selftest));
+        rig.model.touch_on_contains = selftest == 5;
     }
     let mut tag = 0u32;
     let res = (|| -> Result<(), Viol> {
@@ -489,7 +498,7 @@ fn run_generic(rng: &mut Rng, max_ops: usize, selftest: u64) -> CaseOut {
         rig.check()?;
         for _ in 0..n_ops {
             let k = rng.pick(&keys).clone();
-            match rng.weighted(&[30, 26, 8, 8, 2, 6, 4, 10, 5]) {
+            match rng.weighted(&[30, 30, 8, 6, 1, 4, 4, 10, 5]) {
                 0 => {
                     let lim = rig.model.limit;
                     let size = match rng.below(12) {
@@ -519,7 +528,7 @@ fn run_generic(rng: &mut Rng, max_ops: usize, selftest: u64) -> CaseOut {
                         1 => used.saturating_sub(1),
                         2 => used,
                         3 => used / 2,
-                        _ => *rng.pick(&[1usize, 10, 25, 50, 100, 1000]),
+                        _ => *rng.pick(&[10usize, 25, 50, 100, 100, 1000]),
                     };
                     rig.set_limit(n)?
                 }
@@ -1052,16 +1061,16 @@ fn run(args: &Args) -> i32 {
     let workers = if miri { 1 } else { args.workers };
     let max_ops = if miri { 16 } else { 60 };
 
-    let n_a = if miri { args.opt_u64("histories", 70) } else { args.bound("histories", 150_000, 4_000_000) / reduce };
+    let n_a = if miri { args.opt_u64("histories", 70) } else { args.bound("histories", 600_000, 20_000_000) / reduce };
     vcommon::par::run(workers, 0..n_a, |i| {
         if rep.violation_count() > 8 {
             return;
         }
         // the first histories are seed independent
         let mut rng = if i < 200 { Rng::derive(0, &[40, 0, i]) } else { Rng::derive(args.seed, &[40, 1, i]) };
-        record(&rep, run_generic(&mut rng, max_ops, if i < 20 { selftest } else { 0 }));
+        record(&rep, run_generic(&mut rng, max_ops, if i < 20 || selftest == 5 { selftest } else { 0 }));
     });
-    let n_b = if miri { args.opt_u64("concrete", 30) } else { args.bound("concrete", 30_000, 1_000_000) / reduce };
+    let n_b = if miri { args.opt_u64("concrete", 30) } else { args.bound("concrete", 120_000, 4_000_000) / reduce };
     vcommon::par::run(workers, 0..n_b, |i| {
         if rep.violation_count() > 8 {
             return;
